@@ -93,6 +93,7 @@ type Machine struct {
 	objs map[string]value
 	Params map[string]int
 	fallback func() []*sym.Solver
+	emit     func(WorkItem)
 }
 
 func NewProgram(prog *ssa.Program, repoPath string) *Program {
@@ -848,22 +849,28 @@ func (m *Machine) slice(instr *ssa.Slice, x, lo, hi, max value) value {
 
 func (m *Machine) typeAssert(instr *ssa.TypeAssert, itf iface) value {
 	var v value
-	err := ""
+	var err func() string
 	if itf.t == nil {
-		err = fmt.Sprintf("interface conversion: interface is nil, not %s", typeStr(instr.AssertedType))
+		err = func() string {
+			return fmt.Sprintf("interface conversion: interface is nil, not %s", typeStr(instr.AssertedType))
+		}
 	} else if idst, ok := instr.AssertedType.Underlying().(*types.Interface); ok {
 		v = itf
 		if meth, _ := types.MissingMethod(itf.t, idst, true); meth != nil {
-			err = fmt.Sprintf("interface conversion: %s is not %s: missing method %s", typeStr(itf.t), typeStr(instr.AssertedType), meth.Name())
+			err = func() string {
+				return fmt.Sprintf("interface conversion: %s is not %s: missing method %s", typeStr(itf.t), typeStr(instr.AssertedType), meth.Name())
+			}
 		}
-	} else if types.Identical(itf.t, instr.AssertedType) {
+	} else if itf.t == instr.AssertedType || types.Identical(itf.t, instr.AssertedType) {
 		v = itf.v
 	} else {
-		err = fmt.Sprintf("interface conversion: %s is %s, not %s", typeStr(instr.X.Type()), typeStr(itf.t), typeStr(instr.AssertedType))
+		err = func() string {
+			return fmt.Sprintf("interface conversion: %s is %s, not %s", typeStr(instr.X.Type()), typeStr(itf.t), typeStr(instr.AssertedType))
+		}
 	}
-	if err != "" {
+	if err != nil {
 		if !instr.CommaOk {
-			panic(targetPanic{iface{m.P.runtimeErrorString, err}})
+			panic(targetPanic{iface{m.P.runtimeErrorString, err()}})
 		}
 		return tuple{zero(instr.AssertedType), false}
 	}
